@@ -48,9 +48,20 @@ class AnnGen:
             return self.cls()
         if r < 0.6:
             return ["any"]
-        if r < 0.85:
+        if r < 0.75:
             return ["gen", C_LIST, [self.rawarg(depth - 1)]]
+        if r < 0.9:
+            return ["gen", C_TUPLE, [self.rawarg(depth - 1) for _ in range(self.rng.choice([1, 2, 3]))]]
         return ["gen", C_DICT, [self.rawarg(depth - 1), self.rawarg(depth - 1)]]
+
+    def related(self):
+        """a class together with one of its ancestors or descendants, when the hierarchy has one"""
+        tb = self.w.tables()["sub"]
+        pairs = [(c, d) for c in self.user for d in list(self.user) + [C_OBJECT] if c != d and d < len(tb) and tb[c][d]]
+        if pairs and self.rng.random() < 0.7:
+            c, d = self.rng.choice(pairs)
+            return [["cls", c], ["cls", d]]
+        return [self.cls(), self.cls()]
 
     def member(self, depth):
         """a union member that every spelling of a union can hold"""
@@ -78,6 +89,10 @@ class AnnGen:
         if r < 0.4:
             k = rng.choice([2, 2, 3])
             ms = []
+            if rng.random() < 0.5:
+                for m in self.related():
+                    if m not in ms:
+                        ms.append(m)
             while len(ms) < k:
                 m = self.member(depth - 1)
                 if m not in ms:
@@ -154,6 +169,8 @@ class Speller:
             ms = tuple(self.obj(m) for m in a[2])
             if a[1] == C_LIST:
                 return typing.List[ms] if alt else list[ms]
+            if a[1] == C_TUPLE:
+                return typing.Tuple[ms] if alt else tuple[ms]
             return typing.Dict[ms] if alt else dict[ms]
         raise ValueError(a)
 
@@ -424,6 +441,26 @@ def run_oracles(seed, n, out):
             orc("C15")["viol"].append({"law": "registering the respelled method set fails", "error": f"{type(e).__name__}: {e}"[:200], **desc})
             continue
         o = orc("C15")
+        # the laws proved for the model (C15_union_order_subclass / _typeorder, equal normal forms otherwise),
+        # evaluated on the real code: against every class, both spellings are applicable alike and compare alike
+        from ovld.mro import subclasscheck, typeorder
+
+        A, B = norm_real(w, names, a), norm_real(w, names, b, alt)
+        lawbad = None
+        for c in w.classes:
+            o["n"] += 1
+            try:
+                if subclasscheck(c, A) != subclasscheck(c, B):
+                    lawbad = ("subclasscheck", c)
+                elif typeorder(A, c) is not typeorder(B, c) or typeorder(c, A) is not typeorder(c, B):
+                    lawbad = ("typeorder", c)
+            except Exception as e:  # noqa
+                lawbad = ("raised " + type(e).__name__, c)
+            if lawbad:
+                break
+        if lawbad:
+            o["viol"].append({"law": "equivalent spellings are not applicable / ordered alike against a class", "relation": lawbad[0], "class": repr(lawbad[1])[:60], "kind": "respell", **desc})
+            continue
         for v in corpus(w, rng):
             r1, r2 = outcome(f1, v), outcome(f2, v)
             o["n"] += 1
@@ -461,17 +498,23 @@ def order_depends_on_member_order(w, names, a, b, alt, comp):
 
     A, B = norm_real(w, names, a), norm_real(w, names, b, alt)
     Cs = [norm_real(w, names, c) for c in comp]
+
+    def hooked(t):
+        return hasattr(t, "__type_order__")
+
     try:
         for C in Cs:
-            if (typeorder(A, C), typeorder(C, A)) != (typeorder(B, C), typeorder(C, B)):
+            # only when the companion carries a hook of its own: against a plain class (or a parametrised generic)
+            # the order must not depend on the spelling (C15_union_order_typeorder)
+            if hooked(C) and (typeorder(A, C), typeorder(C, A)) != (typeorder(B, C), typeorder(C, B)):
                 return True
-        # an order that is not mirror-symmetric inside either method set makes the outcome depend on the iteration
-        # order of the library's sets, so two builds of the *same* method set may already differ
+        # an order that is not mirror-symmetric between two hook types inside either method set makes the outcome
+        # depend on the iteration order of the library's sets: two builds of the *same* method set may already differ
         for X in (A, B):
             ts = [X] + Cs
             for i in range(len(ts)):
                 for j in range(i + 1, len(ts)):
-                    if typeorder(ts[i], ts[j]) is not typeorder(ts[j], ts[i]).opposite():
+                    if hooked(ts[i]) and hooked(ts[j]) and typeorder(ts[i], ts[j]) is not typeorder(ts[j], ts[i]).opposite():
                         return True
     except Exception:  # noqa
         return True
